@@ -152,6 +152,16 @@ def checkAll (cs : List Core) : List Core → Except Err Unit
     | .error e => .error e
     | .ok () => checkAll cs rest
 
+/-- `link_cores` checks packages in name order (`checked.sort_by(|a, b| a.0.cmp(b.0))`), so the
+    first inconsistency reported does not depend on the order of the inputs -/
+def insCore (c : Core) : List Core → List Core
+  | [] => [c]
+  | d :: ds => if c.pkg < d.pkg then c :: d :: ds else d :: insCore c ds
+
+def sortCores : List Core → List Core
+  | [] => []
+  | c :: cs => insCore c (sortCores cs)
+
 def dupFree : List Core → List Pkg → Except Err Unit
   | [], _ => .ok ()
   | c :: rest, seen => if seen.contains c.pkg then .error (.duplicate c.pkg) else dupFree rest (c.pkg :: seen)
@@ -163,7 +173,7 @@ def linkCores (cs : List Core) : Except Err Unit :=
   | .error e => .error e
   | .ok () =>
     if (findCore cs "Main").isNone then .error .noMain
-    else checkAll cs cs
+    else checkAll cs (sortCores cs)
 
 def link (s : St) (ps : List Pkg) : Except Err (List Core) :=
   match readCores H s ps with
